@@ -25,9 +25,25 @@ def regen_tables(force: bool) -> dict | None:
     return None
 
 
+SRC_PROPS = ("C05", "C06", "C18")
+
+
+def regen_source(force: bool) -> dict | None:
+    """coq/gen/GenSrc.v: operator tables and formulas translated from the Python source (harness/srctie.py)."""
+    if force or not (common.COQ / "gen" / "GenSrc.v").exists():
+        from harness import srctie
+
+        return srctie.regenerate()
+    return None
+
+
 def run_one(pid: str, tier: str, seed: int) -> int:
     rep = common.Report(pid, tier, seed)
     gen = regen_tables(pid in GEN_PROPS)
+    src = regen_source(pid in SRC_PROPS)
+    if src is not None:
+        rep.notes.append("source tie (harness/srctie.py -> coq/gen/GenSrc.v): " + ("translated from this tree's source" if src.get("translated") else
+                         "NOT available for this run, the source no longer has the translated shape (" + str(src.get("why")) + "); behavioural correspondence only"))
     build = common.ensure_built()
     if not build.get("ok"):
         # without the model nothing can be decided: that is a broken check, say so loudly
@@ -54,6 +70,7 @@ def main() -> int:
     seed = common.seed_from_env()
     if a.what == "setup":
         regen_tables(True)
+        regen_source(True)
         st = common.ensure_built(verbose=True)
         print(json.dumps({k: v for k, v in st.items() if k != "props"}, indent=1))
         for pid, info in st.get("props", {}).items():
